@@ -247,18 +247,7 @@ func (l *mbLib) analyzeClosure(fl *ast.FuncLit, via string) *mbClosure {
 	mbVisitStmts(fl.Body.List, nil, func(s ast.Stmt, stack []mbCondCtx) {
 		switch x := s.(type) {
 		case *ast.ReturnStmt:
-			if len(x.Results) != 2 {
-				return
-			}
-			if mbIsNil(info, x.Results[1]) {
-				c.rets = append(c.rets, l.classifyRet(x.Results[0], defs, argsObj))
-			} else if mbIsNil(info, x.Results[0]) {
-				cls := l.errClass(x.Results[1])
-				if cls == "" {
-					cls = "propagated"
-				}
-				c.errs[cls] = true
-			}
+			l.closureReturn(c, x, defs, argsObj, 0)
 		case *ast.ExprStmt:
 			if IsPanicCall(info, x) {
 				c.panics++
@@ -327,6 +316,42 @@ func (l *mbLib) kindDispatch(fl *ast.FuncLit) ([]*mbKindSwitch, bool) {
 		res = append(res, ks)
 	}
 	return res, true
+}
+
+// closureReturn records one return statement of a builtin closure. A
+// `return helper(…)` of a library function with the closure's result pair is
+// read through: the helper's own returns are the closure's returns (two levels).
+func (l *mbLib) closureReturn(c *mbClosure, x *ast.ReturnStmt, defs map[types.Object][]ast.Expr, argsObj types.Object, depth int) {
+	info := l.info
+	if len(x.Results) == 1 && depth < 2 {
+		if call, ok := ast.Unparen(x.Results[0]).(*ast.CallExpr); ok {
+			if fn := CalleeOf(info, call); fn != nil && l.ctorOf(fn) == nil {
+				if hd := l.decls[fn]; hd != nil && hd.Body != nil {
+					if sig, ok := fn.Type().(*types.Signature); ok && sig.Results().Len() == 2 {
+						hdefs := mbCollectDefs(info, hd.Body)
+						mbVisitStmts(hd.Body.List, nil, func(s ast.Stmt, _ []mbCondCtx) {
+							if r, ok := s.(*ast.ReturnStmt); ok {
+								l.closureReturn(c, r, hdefs, nil, depth+1)
+							}
+						})
+						return
+					}
+				}
+			}
+		}
+	}
+	if len(x.Results) != 2 {
+		return
+	}
+	if mbIsNil(info, x.Results[1]) {
+		c.rets = append(c.rets, l.classifyRet(x.Results[0], defs, argsObj))
+	} else if mbIsNil(info, x.Results[0]) {
+		cls := l.errClass(x.Results[1])
+		if cls == "" {
+			cls = "propagated"
+		}
+		c.errs[cls] = true
+	}
 }
 
 // mbAliasTarget: the local that `x := args[i]` (ix is that args[i]) defines.
